@@ -50,7 +50,12 @@ func CombineFromNextProtos(prefix string, chunks []string) (string, error) {
 	for _, chunk := range chunks {
 		// Strip that and the number
 		if strings.HasPrefix(chunk, prefix) {
-			ret += strings.TrimPrefix(chunk, prefix)[3:]
+			// The chunk number is not fixed width (it grows past two digits
+			// after 100 chunks), so strip through the hyphen that ends it;
+			// entries without one are malformed and are ignored
+			if _, value, ok := strings.Cut(strings.TrimPrefix(chunk, prefix), "-"); ok {
+				ret += value
+			}
 		}
 	}
 	return ret, nil
